@@ -10,6 +10,13 @@
 // with the real encoder, decoded with the real decoder and validated with the
 // real (*VersionedTransaction).Validate under recover.
 //
+// Real-store mode (valsim/badger.go): a temp-dir storage.BadgerStore (in /dev/shm when
+// present) is loaded with a genesis and transfers through the real API (Validate ->
+// LockUTXOs -> WriteTransaction -> WriteSnapshot); transactions naming real slots and
+// never-created slots over the whole index range 0..InputIndexLimit (congruent to real
+// ones modulo 128/256/512, just past the output count, duplicates, spent) are validated
+// with the REAL store, while model and oracle use the outputs of the written bodies.
+//
 // Oracle (property text, independent of the model): accepted => every ordinary
 // input is an output record of the store with the transaction's asset, no slot
 // twice, a mint / deposit input stands alone, sum(inputs) = sum(outputs) > 0
@@ -23,7 +30,8 @@ import (
 
 func main() {
 	c := vh.Start("C01")
-	c.Rep.Rule = "corpus (one passing transaction per type, F1/F2 witnesses, surplus special inputs), then random views x " +
+	c.Rep.Rule = "corpus (one passing transaction per type, F1/F2 witnesses, surplus special inputs, word-boundary sums, signature-map shapes), " +
+		"a real Badger store history with ~66 real/aliased/out-of-range input slots judged against the written bodies, then random views x " +
 		"builders of all 11 transaction types with 45% payload mutants and 20% signature mutants, 5% byte-mutated encodings, " +
 		"5% inconsistent views; non-trivial = accepted or the validation reached the store (references / inputs / outputs); " +
 		"distinct by hash of (view, transaction, ts, fork)."
@@ -32,11 +40,19 @@ func main() {
 		var cs valsim.Case
 		c.ReplayCase(&cs)
 		valsim.Run(c, cs, opt)
+		valsim.CloseAll()
 		c.Finish()
 		return
 	}
 	for _, cs := range valsim.Corpus(c.Rng) {
 		valsim.Run(c, cs, opt)
+	}
+	// real-store mode: one Badger history per quick run, several in the other tiers
+	for i, nb := 0, c.Scale(1, 6); i < nb; i++ {
+		for _, cs := range valsim.GenerateBadger(c.Rng) {
+			valsim.Run(c, cs, opt)
+		}
+		valsim.CloseAll()
 	}
 	n := c.Scale(900, 20000)
 	if c.Tier != "quick" {
